@@ -1627,6 +1627,10 @@ func runT(f []string) string {
 
 func runCase(line string) string {
 	f := strings.Split(line, " ")
+	if len(f) >= 3 && f[0] == "E" {
+		res, _ := hx.Guard(deadline, func() string { return runE(f) })
+		return f[1] + " " + res
+	}
 	if len(f) != 7 || f[0] != "T" {
 		id := "?"
 		if len(f) > 1 {
@@ -1726,7 +1730,7 @@ func plantedReject(kind, signer string, tseed uint64) bool {
 func gen(seed uint64, tier string) []string {
 	r := hx.NewRng(seed)
 	// measured: about 0.25 CPU-s per case in mode q and 0.65 CPU-s in mode a (SM2 verification ~1.4 ms dominates)
-	mode, nRand := "q", 300
+	mode, nRand := "q", 180
 	if tier == "thorough" {
 		mode, nRand = "a", 2600
 	}
@@ -1777,6 +1781,14 @@ func gen(seed uint64, tier string) []string {
 		}
 		emit(kind, s, algo, r.U64())
 	}
+	nE := 400
+	if tier == "thorough" {
+		nE = 4000
+	}
+	for i := 0; i < nE; i++ {
+		id++
+		lines = append(lines, genE(r, id))
+	}
 	return lines
 }
 
@@ -1819,4 +1831,309 @@ func main() {
 	}
 	fmt.Fprintln(os.Stderr, "usage: c09 gen <seed> <tier> <cases> <obs> | c09 run <cases> <obs>")
 	os.Exit(2)
+}
+
+// ------------------------------------------------------------------------------------------------
+// E cases: one extension, bytes in / bytes out.  The extension value the library writes for the given
+// fields (taken from a created and re-parsed certificate) and the fields it parses back; the Coq model
+// (X509/ExtModel.v) computes both from the same inputs.
+//
+//	E <id> san <dns> <emails> <ips>        hex lists            -> ok <value> <dns> <emails> <ips>
+//	E <id> eku <ekus> <unknown-oids>       ints, dotted OIDs    -> ok <value> <ekus> <unknown-oids>
+//	E <id> pol <oids>                                            -> ok <value> <oids>
+//	E <id> nc <critical> <domains>         0/1, hex list        -> ok <value> <critical> <domains>
+//	E <id> ncx <critical> <value>          0/1, hex (any NameConstraints value, as extra extension) -> as nc
+//	E <id> ski <keyid> / E <id> aki <keyid>  hex                 -> ok <value> <keyid>
+//	every kind: err create | err parse | PANIC
+
+var (
+	oidExtSAN = asn1.ObjectIdentifier{2, 5, 29, 17}
+	oidExtEKU = asn1.ObjectIdentifier{2, 5, 29, 37}
+	oidExtPol = asn1.ObjectIdentifier{2, 5, 29, 32}
+	oidExtNC  = asn1.ObjectIdentifier{2, 5, 29, 30}
+	oidExtSKI = asn1.ObjectIdentifier{2, 5, 29, 14}
+	oidExtAKI = asn1.ObjectIdentifier{2, 5, 29, 35}
+)
+
+func unOIDs(s string) []asn1.ObjectIdentifier {
+	if s == "-" || s == "" {
+		return nil
+	}
+	var out []asn1.ObjectIdentifier
+	for _, o := range strings.Split(s, ",") {
+		var oid asn1.ObjectIdentifier
+		for _, a := range strings.Split(o, ".") {
+			v, _ := strconv.ParseInt(a, 10, 64)
+			oid = append(oid, int(v))
+		}
+		out = append(out, oid)
+	}
+	return out
+}
+
+func oidsStr(v []asn1.ObjectIdentifier) string {
+	if len(v) == 0 {
+		return "-"
+	}
+	p := make([]string, len(v))
+	for i, o := range v {
+		q := make([]string, len(o))
+		for j, a := range o {
+			q[j] = strconv.Itoa(a)
+		}
+		p[i] = strings.Join(q, ".")
+	}
+	return strings.Join(p, ",")
+}
+
+func strsOf(b [][]byte) []string {
+	out := make([]string, len(b))
+	for i, x := range b {
+		out[i] = string(x)
+	}
+	return out
+}
+
+func hexStrs(v []string) string {
+	b := make([][]byte, len(v))
+	for i, x := range v {
+		b[i] = []byte(x)
+	}
+	return hx.HexList(b)
+}
+
+func runE(f []string) string {
+	kind := f[2]
+	t := &x509.Certificate{SerialNumber: big.NewInt(7), Subject: pkix.Name{CommonName: "e"},
+		NotBefore: time.Unix(1700000000, 0), NotAfter: time.Unix(1800000000, 0), SignatureAlgorithm: x509.SM2WithSM3}
+	parent := &x509.Certificate{Subject: pkix.Name{CommonName: "p"}}
+	var want asn1.ObjectIdentifier
+	switch kind {
+	case "san":
+		t.DNSNames, t.EmailAddresses = strsOf(hx.UnHexList(f[3])), strsOf(hx.UnHexList(f[4]))
+		for _, ip := range hx.UnHexList(f[5]) {
+			t.IPAddresses = append(t.IPAddresses, net.IP(ip))
+		}
+		want = oidExtSAN
+	case "eku":
+		for _, u := range hx.UnInts(f[3]) {
+			t.ExtKeyUsage = append(t.ExtKeyUsage, x509.ExtKeyUsage(u))
+		}
+		t.UnknownExtKeyUsage = unOIDs(f[4])
+		want = oidExtEKU
+	case "pol":
+		t.PolicyIdentifiers = unOIDs(f[3])
+		want = oidExtPol
+	case "nc":
+		t.PermittedDNSDomainsCritical = f[3] == "1"
+		t.PermittedDNSDomains = strsOf(hx.UnHexList(f[4]))
+		want = oidExtNC
+	case "ncx": // an arbitrary NameConstraints value, put into the certificate as an extra extension
+		t.ExtraExtensions = []pkix.Extension{{Id: oidExtNC, Critical: f[3] == "1", Value: hx.UnHex(f[4])}}
+		want = oidExtNC
+	case "ski":
+		t.SubjectKeyId = hx.UnHex(f[3])
+		want = oidExtSKI
+	case "aki":
+		parent.SubjectKeyId = hx.UnHex(f[3])
+		want = oidExtAKI
+	default:
+		return "BADCASE"
+	}
+	der, err := x509.CreateCertificate(t, parent, &W.sm2k[1].PublicKey, W.sm2k[0])
+	if err != nil {
+		return "err create"
+	}
+	c, err := x509.ParseCertificate(der)
+	if err != nil {
+		return "err parse"
+	}
+	var val []byte
+	found := false
+	for _, e := range c.Extensions {
+		if e.Id.Equal(want) {
+			val, found = e.Value, true
+		}
+	}
+	if !found {
+		return "ok - absent"
+	}
+	switch kind {
+	case "san":
+		ips := make([][]byte, len(c.IPAddresses))
+		for i, ip := range c.IPAddresses {
+			ips[i] = []byte(ip)
+		}
+		return fmt.Sprintf("ok %s %s %s %s", hx.Hex(val), hexStrs(c.DNSNames), hexStrs(c.EmailAddresses), hx.HexList(ips))
+	case "eku":
+		us := make([]int, len(c.ExtKeyUsage))
+		for i, u := range c.ExtKeyUsage {
+			us[i] = int(u)
+		}
+		return fmt.Sprintf("ok %s %s %s", hx.Hex(val), hx.Ints(us), oidsStr(c.UnknownExtKeyUsage))
+	case "pol":
+		return fmt.Sprintf("ok %s %s", hx.Hex(val), oidsStr(c.PolicyIdentifiers))
+	case "nc", "ncx":
+		return fmt.Sprintf("ok %s %s %s", hx.Hex(val), b2s(c.PermittedDNSDomainsCritical), hexStrs(c.PermittedDNSDomains))
+	case "ski":
+		return fmt.Sprintf("ok %s %s", hx.Hex(val), hx.Hex(c.SubjectKeyId))
+	case "aki":
+		return fmt.Sprintf("ok %s %s", hx.Hex(val), hx.Hex(c.AuthorityKeyId))
+	}
+	return "BADCASE"
+}
+
+func genBytesE(r *hx.Rng, ia5 bool) []byte {
+	n := r.Pick([]int{0, 1, 1, 3, 7, 11, 20, 64, 127, 128, 129, 200, 255, 256, 300})
+	if r.Intn(40) == 0 {
+		n = 65536 + r.Intn(10)
+	}
+	b := make([]byte, n)
+	for i := range b {
+		if ia5 {
+			b[i] = byte(33 + r.Intn(94))
+		} else {
+			b[i] = byte(r.U64())
+		}
+	}
+	return b
+}
+
+func genOIDE(r *hx.Rng) asn1.ObjectIdentifier {
+	var o asn1.ObjectIdentifier
+	switch r.Intn(12) {
+	case 0:
+		return asn1.ObjectIdentifier{1, 3, 6, 1, 5, 5, 7, 3, 1 + r.Intn(9)} // a known EKU
+	case 1:
+		return asn1.ObjectIdentifier{2, 5, 29, 37, 0}
+	case 2:
+		o = asn1.ObjectIdentifier{3, 1} // invalid
+	case 3:
+		o = asn1.ObjectIdentifier{1, 40} // invalid
+	case 4:
+		o = asn1.ObjectIdentifier{2, 999}
+	case 5:
+		o = asn1.ObjectIdentifier{r.Intn(3)} // too short
+	default:
+		o = asn1.ObjectIdentifier{r.Intn(3), r.Intn(40)}
+	}
+	for n := r.Intn(7); n > 0; n-- {
+		o = append(o, r.Pick([]int{0, 1, 127, 128, 129, 16383, 16384, 2097151, 2097152, 268435455, 268435456, 2147483647, r.Intn(1 << 20)}))
+	}
+	return o
+}
+
+func genE(r *hx.Rng, id int) string {
+	list := func(n int, ia5 bool) string {
+		var v [][]byte
+		for i := 0; i < n; i++ {
+			v = append(v, genBytesE(r, ia5))
+		}
+		return hx.HexList(v)
+	}
+	oids := func(n int) string {
+		var v []asn1.ObjectIdentifier
+		for i := 0; i < n; i++ {
+			v = append(v, genOIDE(r))
+		}
+		return oidsStr(v)
+	}
+	switch r.Intn(7) {
+	case 6:
+		gname := func() []byte {
+			switch r.Intn(8) {
+			case 0:
+				return derTLV(0x87, r.Bytes(r.Pick([]int{8, 32}))) // iPAddress range
+			case 1:
+				return derTLV(0x81, []byte("x@example.com"))
+			case 2:
+				return derTLV(0x86, []byte(".example.com"))
+			case 3:
+				return derTLV(0xa4, derTLV(0x30, derTLV(0x31, derTLV(0x30, append(derTLV(0x06, []byte{0x55, 4, 3}), derTLV(0x0c, []byte("cn"))...)))))
+			case 4:
+				return derTLV(0x82, genBytesE(r, r.Intn(6) != 0))
+			default:
+				return derTLV(0x82, []byte([]string{"example.com", ".example.com", "a.b", "test"}[r.Intn(4)]))
+			}
+		}
+		subtrees := func() []byte {
+			var b []byte
+			for n := 1 + r.Intn(3); n > 0; n-- {
+				st := gname()
+				if r.Intn(6) == 0 {
+					st = append(st, derTLV(0x80, []byte{0})...) // minimum [0] 0
+				}
+				if r.Intn(15) == 0 {
+					st = nil // empty GeneralSubtree
+				}
+				b = append(b, derTLV(0x30, st)...)
+			}
+			return b
+		}
+		var body []byte
+		if r.Intn(4) != 0 {
+			body = append(body, derTLV(0xa0, subtrees())...)
+		}
+		if r.Intn(3) == 0 {
+			body = append(body, derTLV(0xa1, subtrees())...)
+		}
+		return fmt.Sprintf("E %d ncx %d %s", id, r.Intn(2), hx.Hex(derTLV(0x30, body)))
+	case 0:
+		var ips [][]byte
+		for n := r.Intn(4); n > 0; n-- {
+			switch r.Intn(8) {
+			case 0:
+				ips = append(ips, append([]byte{0, 0, 0, 0, 0, 0, 0, 0, 0, 0, 0xff, 0xff}, r.Bytes(4)...))
+			case 1:
+				ips = append(ips, r.Bytes(r.Pick([]int{0, 1, 5, 12, 15, 17})))
+			case 2, 3, 4:
+				ips = append(ips, r.Bytes(16))
+			default:
+				ips = append(ips, r.Bytes(4))
+			}
+		}
+		d, e := list(r.Intn(4), r.Intn(4) != 0), list(r.Intn(3), r.Intn(4) != 0)
+		if d == "-" && e == "-" && len(ips) == 0 {
+			d = hx.HexList([][]byte{[]byte("a.b")})
+		}
+		return fmt.Sprintf("E %d san %s %s %s", id, d, e, hx.HexList(ips))
+	case 1:
+		var us []int
+		for n := r.Intn(5); n > 0; n-- {
+			us = append(us, r.Intn(12))
+		}
+		if r.Intn(25) == 0 {
+			us = append(us, 12+r.Intn(3))
+		}
+		u := oids(r.Intn(4))
+		if len(us) == 0 && u == "-" {
+			us = []int{1}
+		}
+		return fmt.Sprintf("E %d eku %s %s", id, hx.Ints(us), u)
+	case 2:
+		return fmt.Sprintf("E %d pol %s", id, oids(1+r.Intn(4)))
+	case 3:
+		n := 1 + r.Intn(4)
+		var v [][]byte
+		for i := 0; i < n; i++ {
+			b := genBytesE(r, r.Intn(12) != 0)
+			if len(b) == 0 && r.Intn(3) != 0 {
+				b = []byte("example.com")
+			}
+			v = append(v, b)
+		}
+		return fmt.Sprintf("E %d nc %d %s", id, r.Intn(2), hx.HexList(v))
+	case 4:
+		b := genBytesE(r, false)
+		if len(b) == 0 {
+			b = []byte{1}
+		}
+		return fmt.Sprintf("E %d ski %s", id, hx.Hex(b))
+	default:
+		b := genBytesE(r, false)
+		if len(b) == 0 {
+			b = []byte{1}
+		}
+		return fmt.Sprintf("E %d aki %s", id, hx.Hex(b))
+	}
 }
